@@ -43,6 +43,8 @@ pub struct Event {
     pub aux: u8,
     pub origin: u8,
     pub thread: u8,
+    /// global sequence number (shared with the atomics log of the concurrent harness)
+    pub seq: u64,
 }
 
 const EV0: Event = Event {
@@ -56,7 +58,14 @@ const EV0: Event = Event {
     aux: 0,
     origin: 0,
     thread: 0,
+    seq: 0,
 };
+
+static SEQ: std::sync::atomic::AtomicU64 = std::sync::atomic::AtomicU64::new(1);
+/// next global sequence number
+pub fn next_seq() -> u64 {
+    SEQ.fetch_add(1, Ordering::SeqCst)
+}
 
 #[derive(Clone, Copy)]
 struct Blk {
@@ -193,10 +202,11 @@ pub fn set_log_events(b: bool) {
     LOG_EVENTS.store(b, Ordering::Relaxed);
 }
 
-fn push(s: &mut State, e: Event) {
+fn push(s: &mut State, mut e: Event) {
     if !LOG_EVENTS.load(Ordering::Relaxed) {
         return;
     }
+    e.seq = next_seq();
     if s.nev < NEV {
         s.ev[s.nev] = e;
         s.nev += 1;
@@ -312,6 +322,7 @@ unsafe impl GlobalAlloc for Ledger {
                 aux: 0,
                 origin: w,
                 thread: thread_id(),
+               seq: 0,
             },
         );
         base as *mut u8
@@ -357,6 +368,7 @@ unsafe impl GlobalAlloc for Ledger {
                     aux: 0,
                     origin: b.origin,
                     thread: thread_id(),
+                seq: 0,
                 },
             );
             check_rz(s, hit);
@@ -398,6 +410,7 @@ unsafe impl GlobalAlloc for Ledger {
                     aux,
                     origin: b.origin,
                     thread: thread_id(),
+                seq: 0,
                 },
             );
             return; // never hand a bad pointer to the system allocator
@@ -430,6 +443,7 @@ unsafe fn check_rz(s: &mut State, i: usize) {
                 aux: 0,
                 origin: b.origin,
                 thread: thread_id(),
+               seq: 0,
             },
         );
     }
@@ -462,6 +476,7 @@ pub fn check_guards() {
                         aux: 0,
                         origin: b.origin,
                         thread: thread_id(),
+                       seq: 0,
                     },
                 );
             }
